@@ -82,6 +82,9 @@ def states(tier, seed):
         st.append(dict(topo="as", lin=lin, pt="base", fam=fam, npoints=1, side="right", nx=3, model="tube", sym=True, relief=True, fuel=False, pmass=True, comp=False, visc=True, wave=False, two=False))
         if tier == "thorough":
             st.append(dict(topo="as", lin=lin, pt="base", fam=fam, npoints=1, side="right", nx=3, model="wingbox", sym=True, relief=True, fuel=True, pmass=False, comp=False, visc=True, wave=False, two=False))
+    # laminar-fraction end values (each its own branch of the skin-friction model and of its linearisation)
+    for klam in (1.0, 0.0):
+        st.append(dict(topo="as", lin="direct", pt="base", fam=fam, npoints=1, klam=klam, model="tube", sym=True, relief=False, fuel=False, pmass=False, comp=False, visc=True, wave=False, two=False))
     # the library's own solver configuration (nothing re-attached by the user), single point and the documented multipoint
     # pattern: points created with internally_connect_fuelburn=False, the cruise fuel burn connected to every point, all responses
     # and design variables registered with the driver and requested in one compute_totals call
@@ -178,7 +181,7 @@ def as_model(s, mode):
     sym = s["sym"]
     ny = 3 if sym else 5
     off = s["pt"] == "off"
-    kw = dict(struct_weight_relief=s["relief"], distributed_fuel_weight=s["fuel"], with_viscous=s["visc"], with_wave=s["wave"], twist_cp=np.array([2.0, 3.0, 1.0]) + (1.0 if off else 0.0), t_over_c_cp=np.array([0.12, 0.14]), sweep=2.0, taper=0.95)
+    kw = dict(struct_weight_relief=s["relief"], distributed_fuel_weight=s["fuel"], with_viscous=s["visc"], with_wave=s["wave"], twist_cp=np.array([2.0, 3.0, 1.0]) + (1.0 if off else 0.0), t_over_c_cp=np.array([0.12, 0.14]), sweep=2.0, taper=0.95, k_lam=s.get("klam", 0.05))
     if s.get("ground"):
         kw["groundplane"] = True
     pm = None
